@@ -12,6 +12,12 @@
 //!                      Package::write, then flush()?, then the drop (validates the BufWriter model against std)
 //!   wfile PKG LIMIT    the REAL Package::write_file(path) in a forked child whose RLIMIT_FSIZE is LIMIT bytes
 //!                      (`-` = no limit; SIGXFSZ ignored, so the file takes bytes up to LIMIT and then fails with EFBIG)
+//!   wfile PKG LIMIT MODE   the same with another argument type / destination:
+//!                      str | refpath | string  the path handed over as `&str` / `&Path` / `String` (default: `&PathBuf`)
+//!                      pre<K>   the destination already exists and holds K bytes of 0xAA (`File::create` must truncate it:
+//!                               a LONGER old file may not leave a stale tail behind the package)
+//!                      nodir    the destination lies in a directory that does not exist; isdir: the destination IS a directory
+//!                               (`File::create` fails: `err`, nothing written, nothing created)
 //!       observation (both): `ok|err <bytes that reached the sink / file> <fnv of them>` | `noparse`
 //!
 //! SINK = CHUNK[:i<j>][:f<N>|:z<N>]      SRC = CHUNK[:i<j>]:(d|b<cap>)
@@ -239,7 +245,7 @@ fn write_file_body_obs(bytes: &[u8], cap: usize, spec: &str) -> String {
 static WFILE_COUNTER: std::sync::atomic::AtomicU64 = std::sync::atomic::AtomicU64::new(0);
 
 /// the real `Package::write_file` against a real file that the kernel stops at `limit` bytes
-fn write_file_real_obs(bytes: &[u8], limit: Option<u64>) -> String {
+fn write_file_real_obs(bytes: &[u8], limit: Option<u64>, mode: &str) -> String {
     let pkg = match rpm::Package::parse(&mut &bytes[..]) {
         Ok(p) => p,
         Err(_) => return "noparse".into(),
@@ -247,8 +253,22 @@ fn write_file_real_obs(bytes: &[u8], limit: Option<u64>) -> String {
     let dir = std::env::current_dir().map(|d| d.join("work")).unwrap_or_else(|_| std::env::temp_dir());
     let _ = std::fs::create_dir_all(&dir);
     let n = WFILE_COUNTER.fetch_add(1, std::sync::atomic::Ordering::SeqCst);
-    let path = dir.join(format!("c14-wfile-{}-{}.rpm", std::process::id(), n));
+    let mut path = dir.join(format!("c14-wfile-{}-{}.rpm", std::process::id(), n));
     let _ = std::fs::remove_file(&path);
+    let mut made_dir = false;
+    if let Some(k) = mode.strip_prefix("pre") {
+        let k: usize = match k.parse() { Ok(k) => k, Err(_) => return "bad-request".into() };
+        if std::fs::write(&path, vec![0xaau8; k]).is_err() {
+            return "io-setup".into();
+        }
+    } else if mode == "nodir" {
+        path = dir.join(format!("c14-nodir-{}-{}", std::process::id(), n)).join("x.rpm");
+    } else if mode == "isdir" {
+        if std::fs::create_dir(&path).is_err() {
+            return "io-setup".into();
+        }
+        made_dir = true;
+    }
     let code = unsafe {
         let pid = libc::fork();
         if pid < 0 {
@@ -260,7 +280,12 @@ fn write_file_real_obs(bytes: &[u8], limit: Option<u64>) -> String {
                 libc::setrlimit(libc::RLIMIT_FSIZE, &lim);
                 libc::signal(libc::SIGXFSZ, libc::SIG_IGN);
             }
-            let r = std::panic::catch_unwind(std::panic::AssertUnwindSafe(|| pkg.write_file(&path)));
+            let r = std::panic::catch_unwind(std::panic::AssertUnwindSafe(|| match mode {
+                "str" => pkg.write_file(path.to_str().unwrap_or("")),
+                "refpath" => pkg.write_file(path.as_path()),
+                "string" => pkg.write_file(path.to_string_lossy().to_string()),
+                _ => pkg.write_file(&path),
+            }));
             libc::_exit(match r {
                 Ok(Ok(())) => 0,
                 Ok(Err(_)) => 1,
@@ -271,8 +296,23 @@ fn write_file_real_obs(bytes: &[u8], limit: Option<u64>) -> String {
         libc::waitpid(pid, &mut status, 0);
         if libc::WIFEXITED(status) { libc::WEXITSTATUS(status) } else { 100 }
     };
-    let content = std::fs::read(&path).unwrap_or_default();
-    let _ = std::fs::remove_file(&path);
+    let content = if made_dir { Vec::new() } else { std::fs::read(&path).unwrap_or_default() };
+    if made_dir {
+        // still an (empty) directory?
+        if std::fs::remove_dir(&path).is_err() {
+            return "destination-directory-changed".into();
+        }
+    } else {
+        let _ = std::fs::remove_file(&path);
+    }
+    if mode == "nodir" {
+        if let Some(parent) = path.parent() {
+            if parent.exists() {
+                let _ = std::fs::remove_dir_all(parent);
+                return "directory-created".into();
+            }
+        }
+    }
     let res = match code {
         0 => "ok",
         1 => "err",
@@ -332,7 +372,7 @@ pub fn eval(op: &str, a: &[&str]) -> Option<String> {
         "rd" if a.len() == 2 => Some(read_obs(&arg_bytes(a[0]), a[1])),
         "tr" if a.len() == 2 => Some(trunc_obs(&arg_bytes(a[0]), a[1].parse().ok()?)),
         "wf" if a.len() == 3 => Some(write_file_body_obs(&arg_bytes(a[0]), a[1].parse().ok()?, a[2])),
-        "wfile" if a.len() == 2 => Some(write_file_real_obs(&arg_bytes(a[0]), if a[1] == "-" { None } else { Some(a[1].parse().ok()?) })),
+        "wfile" if a.len() == 2 || a.len() == 3 => Some(write_file_real_obs(&arg_bytes(a[0]), if a[1] == "-" { None } else { Some(a[1].parse().ok()?) }, a.get(2).copied().unwrap_or("pathbuf"))),
         _ => None,
     }
 }
@@ -438,6 +478,40 @@ pub fn gen(ctx: &mut Ctx) {
         }
     });
     ctx_req_owned(ctx, 2, format!("wfile {} -", big20_hex));
+    // other argument types, a pre-existing (longer / shorter / equal) destination, destinations that cannot be created
+    {
+        let (sl, bl) = (small.len(), big20.len());
+        let mut reqs: Vec<String> = Vec::new();
+        for m in ["str", "refpath", "string", "nodir", "isdir"] {
+            reqs.push(format!("wfile {} - {}", small_hex, m));
+            reqs.push(format!("wfile {} - {}", big20_hex, m));
+            reqs.push(format!("wfile {} {} {}", big20_hex, 8192 + 5, m));
+        }
+        for k in [0usize, 1, sl - 1, sl, sl + 1, 5000, 8192, 8193, 30_000] {
+            reqs.push(format!("wfile {} - pre{}", small_hex, k));
+        }
+        for k in [1usize, 8192, bl - 1, bl, bl + 1, 2 * bl + 7] {
+            reqs.push(format!("wfile {} - pre{}", big20_hex, k));
+        }
+        // a limited file that existed before: what is left is the prefix written, never old bytes
+        let stride_h = ctx.q(211u64, 29);
+        for i in (0..=sl as u64).step_by(stride_h as usize).chain([sl as u64 - 1, sl as u64]) {
+            reqs.push(format!("wfile {} {} pre{}", small_hex, i, sl + 100));
+        }
+        for i in (0..=bl as u64).step_by(ctx.q(2999usize, 499)).chain([8191u64, 8192, 8193, bl as u64 - 1, bl as u64]) {
+            reqs.push(format!("wfile {} {} pre{}", big20_hex, i, bl + 100));
+        }
+        // std's DEFAULT BufReader capacity (8192) over scripted sources on a package larger than the buffer, whole and cut near the mark
+        for sp in ["a:b8192", "k4096:b8192", "k8191:i2:b8192", "r5:b8192", "k20000:b8192", "1:b8192"] {
+            reqs.push(format!("rd {} {}", big20_hex, sp));
+            for cut in [8191usize, 8192, 8193, bl - 1] {
+                reqs.push(format!("rd {} {}", hx(&big20[..cut]), sp));
+            }
+        }
+        for (i, r) in reqs.into_iter().enumerate() {
+            ctx_req_owned(ctx, i as u64, r);
+        }
+    }
 
     // D. truncation at every offset of the same package
     every(ctx, n, |ctx, i| ctx.req(&format!("tr {} {}", small_hex, i)));
